@@ -330,21 +330,30 @@ fn check_type_relation<T: TypeLookup>(
 
         // Two back references: compare the types they stand for. At the same position of one
         // recursive type these are the pair already assumed; in a contravariant position the
-        // pair is reversed and has to be checked.
+        // pair is reversed and has to be checked. A back reference is followed in the context
+        // of its target: the enclosing types below the target are set aside for the duration.
         (Type::Cycle(d1), Type::Cycle(d2)) => {
             let (s, p) = (&type_stack.self_side, &type_stack.pattern_side);
             if s.len() < *d1 || p.len() < *d2 {
                 return true; // Coinductive reasoning
             }
-            let (self_target, pattern_target) = (s[s.len() - *d1], p[p.len() - *d2]);
-            check_type_relation(
+            let (si, pi) = (s.len() - *d1, p.len() - *d2);
+            let (self_target, pattern_target) = (s[si], p[pi]);
+            let self_rest = type_stack.self_side.split_off(si);
+            let pattern_rest = type_stack.pattern_side.split_off(pi);
+            let result = check_type_relation(
                 self_target,
                 pattern_target,
                 lookup,
                 mode,
                 assumptions,
                 type_stack,
-            )
+            );
+            type_stack.self_side.truncate(si);
+            type_stack.self_side.extend(self_rest);
+            type_stack.pattern_side.truncate(pi);
+            type_stack.pattern_side.extend(pattern_rest);
+            result
         }
 
         // Handle cycles by looking up the type in the stack of its own side
@@ -353,12 +362,14 @@ fn check_type_relation<T: TypeLookup>(
             if stack.len() < *depth {
                 return true; // Coinductive reasoning
             }
-            let lookup_index = stack.len() - *depth;
-            if let Some(&stack_id) = stack.get(lookup_index) {
-                check_type_relation(stack_id, pattern_id, lookup, mode, assumptions, type_stack)
-            } else {
-                true
-            }
+            let index = stack.len() - *depth;
+            let stack_id = stack[index];
+            let rest = type_stack.self_side.split_off(index);
+            let result =
+                check_type_relation(stack_id, pattern_id, lookup, mode, assumptions, type_stack);
+            type_stack.self_side.truncate(index);
+            type_stack.self_side.extend(rest);
+            result
         }
 
         (_, Type::Cycle(depth)) => {
@@ -366,12 +377,14 @@ fn check_type_relation<T: TypeLookup>(
             if stack.len() < *depth {
                 return true;
             }
-            let lookup_index = stack.len() - *depth;
-            if let Some(&stack_id) = stack.get(lookup_index) {
-                check_type_relation(self_id, stack_id, lookup, mode, assumptions, type_stack)
-            } else {
-                true
-            }
+            let index = stack.len() - *depth;
+            let stack_id = stack[index];
+            let rest = type_stack.pattern_side.split_off(index);
+            let result =
+                check_type_relation(self_id, stack_id, lookup, mode, assumptions, type_stack);
+            type_stack.pattern_side.truncate(index);
+            type_stack.pattern_side.extend(rest);
+            result
         }
 
         // Union on left side: mode determines ALL vs ANY semantics
